@@ -64,11 +64,11 @@ impl Scenario for TxSim {
     }
     fn budget(&self, target: &str, tier: Tier) -> u64 {
         let q = match target {
-            "C09" => 60_000,
-            "C11" => 80_000,
-            "C15" => 100_000,
-            "C18" => 60_000,
-            "C06" => 40_000,
+            "C09" => 200000,
+            "C11" => 300000,
+            "C15" => 400000,
+            "C18" => 200000,
+            "C06" => 150000,
             "C13" => 2_000,
             _ => 0,
         };
